@@ -112,6 +112,7 @@ type WDerive struct {
 	Shuffle   int      `json:"shuffle,omitempty"` // 0 keep, 1 on, 2 off
 	PadCH     int      `json:"pad_ch,omitempty"`
 	TPs       string   `json:"tps,omitempty"`
+	Plans     []int    `json:"plans,omitempty"` // InitialPackets: pairs (CryptoLength, PacketSize) per datagram
 }
 
 // ---------------------------------------------------------------- router
